@@ -593,6 +593,100 @@ def run(ck, prog, ctx):
                 revs = [len([m_ for m_ in _ac17(zb, pvz, a_) if m_ == "rev"]) % 2 for a_ in zt.args]
                 ck.ob("ORDER", "zip-direction/%s/%d" % (zb.short, zbi), revs[0] == revs[1], "%s zips two sequences that run %s" % (zb.short, "in the same direction" if revs[0] == revs[1] else
                       "in OPPOSITE directions (one side is reversed with `rev()` and never turned back): the i-th element of one side meets the i-th from the end of the other"), where=zb.where(zt.line))
+    # ---- BOOKKEEPING of the merge loops, decided on the control flow of the code behind the four constructors:
+    #  (exit)    the only way out of a merge loop other than the cut-off is the EMPTY edge of `distance_matrix.is_empty()`
+    #  (active)  a distance is stored for a set only on the Some edge of its slot in `sets` (merged sets are None)
+    #  (skip)    the two sets that were just merged are skipped by index: the store is dominated by the `differs` edges of `idx == key.0` and of
+    #            `idx == key.1` (two tests, one per component of the key)
+    #  (size)    `size_of_cluster`: a node below `initial_len` is a leaf (size 1) - exactly the `<` outcome; the table of clusters is read, at
+    #            `idx - initial_len`, on the other two outcomes
+    #  (leaves)  `indicies()`: the node that is pushed is the node that was tested against `initial_len`
+    ck.rule("BOOK", "merge-loop bookkeeping in stats/linkage.rs: exit on the empty edge, stores on the Some edge, the merged pair skipped by both indices, leaf/cluster split at `idx < initial_len`, indicies() pushes the node it tested")
+    from engines import _test_edges as _te17, loop_early_exits as _lee17b, positive_edges as _pe17, compare_switches as _cs17b, relation_cases as _rc17b
+    pvb = Prov(prog, inline=False)
+    for nm in ("arithmetic_cluster", "cluster_set_unions"):
+        hb = prog.body(LINK + nm)
+        if hb is None:
+            continue
+        # (exit)
+        empt_pos = {e_ for bi_, t_ in hb.calls() if t_.callee.method == "is_empty" and "distance_matrix" in field_names_of(pvb.of_operand(hb, t_.args[0])) for e_ in _pe17(hb, pvb, bi_)}
+        empt_sw = {e_[0] for e_ in empt_pos}
+        for lp in for_loops_any(hb):
+            for (x_, y_) in _lee17b(hb, lp):
+                if x_ in empt_sw:
+                    ck.ob("BOOK", "exit/%s/%d" % (nm, x_), (x_, y_) in empt_pos, "%s leaves its merge loop on the %s edge of distance_matrix.is_empty()" % (nm, "EMPTY" if (x_, y_) in empt_pos else "NON-empty (nothing, or not everything, is clustered)"), where=hb.where(hb.blocks[x_].term.line))
+        # (active) + (skip)
+        stores = [(bi_, t_) for bi_, t_ in hb.calls() if (t_.callee.res or "").endswith("DistanceMatrix::insert")]
+        somes_pos = {e_ for bi_, t_ in hb.calls() if t_.callee.method == "is_some" and len(t_.args) == 1 for e_ in _pe17(hb, pvb, bi_)}
+        # (`is_none()`: its negative edges are the Some edges)
+        for bi_, t_ in hb.calls():
+            if t_.callee.method == "is_none" and len(t_.args) == 1:
+                np_ = set(_pe17(hb, pvb, bi_))
+                somes_pos |= {(sb_, tg_) for sb_ in {e_[0] for e_ in np_} for tg_ in hb.succ[sb_] if (sb_, tg_) not in np_}
+        somes_sw = {e_[0] for e_ in somes_pos}
+        eqs = [t_ for t_ in _te17(hb, pvb) if t_["kind"] == "equal"]
+        for n_, (sbi, st_) in enumerate(stores):
+            doms_some = [e_ for e_ in somes_pos if hb.edge_dominates(e_, sbi)]
+            doms_none = [(sb_, tg_) for sb_ in somes_sw for tg_ in hb.succ[sb_] if (sb_, tg_) not in somes_pos and hb.edge_dominates((sb_, tg_), sbi)]
+            if doms_some or doms_none:
+                ck.ob("BOOK", "active/%s/%d" % (nm, n_), bool(doms_some) and not doms_none, "%s stores a distance for a set %s" % (nm, "only on the Some edge of its slot" if doms_some and not doms_none else "on the NONE edge of its slot (a merged set), and skips the active ones"), where=hb.where(st_.line))
+            inner_ = None
+            for h_, bl_ in hb.natural_loops().items():
+                if sbi in bl_ and (inner_ is None or len(bl_) < len(inner_)):
+                    inner_ = bl_
+            # the index tests that belong to this store: equality tests in the innermost loop around the store that stand in front of it
+            keyed = [t_ for t_ in eqs if (inner_ is not None and t_["bb"] in inner_ and hb.dominates(t_["bb"], sbi)) or any(hb.edge_dominates(e_, sbi) for e_ in t_["same"] | t_["diff"])]
+            if keyed:
+                comps = set()
+                wrong = []
+                for t_ in keyed:
+                    on_diff = any(hb.edge_dominates(e_, sbi) for e_ in t_["diff"])
+                    cs_ = set()
+                    for o_ in t_["ops"]:
+                        # the component of the merged key that is compared: read off the operand's own definition (`_t = copy (key.1)`)
+                        if o_.place is not None:
+                            cs_ |= {e[1] for e in o_.place.fields() if e != "*" and e[0] == "f" and e[1] in ("0", "1")}
+                            if o_.place.is_local():
+                                for k2_, p2_, d2_ in pvb.defs(hb).get(o_.place.local, []):
+                                    if k2_ == "assign" and d2_.rv["k"] == "use" and d2_.rv["op"].place is not None:
+                                        cs_ |= {e[1] for e in d2_.rv["op"].place.fields() if e != "*" and e[0] == "f" and e[1] in ("0", "1")}
+                    comps |= cs_
+                    if not on_diff and cs_:
+                        wrong.append(t_["line"])
+                ck.ob("BOOK", "skip/%s/%d" % (nm, n_), not wrong and (comps >= {"0", "1"} or not comps), "%s stores a distance %s" % (nm, "only for an index that differs from BOTH merged indices" if not wrong and (comps >= {"0", "1"} or not comps) else
+                      ("without being dominated by the `differs` edge of the index test in line %s (AND-ed with another test, or the store stands on its EQUAL side): a merged set gets a distance" % wrong[0] if wrong else "after testing only component %s of the merged key" % sorted(comps))), where=hb.where(st_.line))
+    # (every set) the bookkeeping loops over the sets run to the end
+    from engines import for_loops as _fl17
+    for nm in ("arithmetic_cluster", "cluster_set_unions"):
+        hb = prog.body(LINK + nm)
+        for li_, lp_ in enumerate(_fl17(hb) if hb is not None else []):
+            ex_ = _lee17b(hb, lp_)
+            ck.ob("BOOK", "every-set/%s/%d" % (nm, li_), not ex_, "%s: the loop in line %s %s" % (nm, lp_["line"], "visits every set" if not ex_ else "can be left early (line %s): the sets behind that point get no distance to the new cluster" % hb.blocks[ex_[0][0]].term.line), where=hb.where(lp_["line"]))
+    sc = prog.body(LINK + "size_of_cluster")
+    if sc is not None:
+        for n_, c_ in enumerate(_cs17b(sc, pvb)):
+            if c_["op"] not in ("Lt", "Le", "Gt", "Ge"):
+                continue
+            fl_, fr_ = field_names_of(pvb.of_operand(sc, c_["l"])), field_names_of(pvb.of_operand(sc, c_["r"]))
+            if ("initial_len" in fr_) == ("initial_len" in fl_):
+                continue
+            cases = _rc17b(c_, swap="initial_len" in fl_)  # idx against initial_len
+            def leaf_(tg_):
+                reg_ = sc.region((c_["bb"], tg_))
+                return not any(st_.k == "assign" and st_.rv["k"] == "bin" and st_.rv["op"].startswith("Sub") for r_ in reg_ for st_ in sc.blocks[r_].stmts)
+            got = {k_: ("leaf" if leaf_(tg_) else "cluster") for k_, tg_ in cases.items() if tg_ is not None}
+            ck.ob("BOOK", "size/%d" % n_, got == {"lt": "leaf", "eq": "cluster", "gt": "cluster"}, "size_of_cluster treats a node as %s (expected: a leaf exactly when idx < initial_len)" % ", ".join("%s -> %s" % kv for kv in sorted(got.items())), where=sc.where(c_["line"]))
+    ib = prog.body(LINK + "indicies")
+    if ib is not None:
+        for n_, (pbi, pt_) in enumerate([(bi_, t_) for bi_, t_ in ib.calls() if t_.callee.method == "push" and len(t_.args) == 2]):
+            pushed = {a_[1].rsplit("::", 1)[-1] for a_ in pvb.of_operand(ib, pt_.args[1]) if a_[0] == "call" and a_[3] == ib.id and a_[1].rsplit("::", 1)[-1] in ("lhs", "rhs")}
+            tested = set()
+            for c_ in _cs17b(ib, pvb):
+                if ib.edge_dominates((c_["bb"], c_["true_tg"]), pbi) or ib.edge_dominates((c_["bb"], c_["false_tg"]), pbi):
+                    for o_ in (c_["l"], c_["r"]):
+                        tested |= {a_[1].rsplit("::", 1)[-1] for a_ in pvb.of_operand(ib, o_) if a_[0] == "call" and a_[3] == ib.id and a_[1].rsplit("::", 1)[-1] in ("lhs", "rhs")}
+            if pushed and tested:
+                ck.ob("BOOK", "leaves/%d" % n_, pushed == tested, "indicies() pushes `%s()` under a test of `%s()`" % ("/".join(sorted(pushed)), "/".join(sorted(tested))), where=ib.where(pt_.line))
     from engines import check_parallel_vectors as _cpv
     ck.rule("PARALLEL", "two Vec fields of one struct that a method edits together are edited at the same position")
     ck.extra["side-by-side vector edits examined"] = _cpv(ck, "PARALLEL", prog, [b_ for b_ in prog.production() if (b_.file or "").startswith(("src/stats/linkage",))])
